@@ -244,6 +244,11 @@ func (r *Run) Finish(verifDir string, start time.Time, seed int, loadInfo map[st
 		violations++
 		failing = append(failing, o)
 	}
+	if os.Getenv("NEAT_LIST") != "" {
+		for _, o := range r.Obs {
+			fmt.Printf("  [%s] %s @%s: %s\n", o.Status, o.ID, o.Pos, o.Detail)
+		}
+	}
 	for _, o := range failing {
 		name := unsafeChars.ReplaceAllString(strings.TrimPrefix(o.ID, r.Property+"/"), "_")
 		if len(name) > 150 {
